@@ -94,7 +94,7 @@ def main(c):
     glossary = sorted(entries, key=lambda e: e["key"].encode("latin-1"))  # iteration order of std::set<GlossaryEntry>
     # ------------------------------------------------ independent statement of the property on the dump (concrete failures)
     owners = {}
-    for e in glossary:
+    for e in glossary + members:  # registered entries and the static members they are copies of
         for n in [e["key"]] + e["names"]:
             owners.setdefault(n, [])
             if e["key"] not in owners[n]:
@@ -107,7 +107,7 @@ def main(c):
             c.report("ambiguous:" + n, "the glossary name '%s' designates %d entries: %s" % (n, len(ow), ow), {"name": n, "entries": ow}, True)
     if len(set(keys)) != len(keys) or sorted(keys) != sorted(e["key"] for e in entries):
         nfail += 1
-        c.report("keys", "getKeys() is not a duplicate-free list of the entries' keys", {"keys": keys}, True)
+        c.report("keys", "getKeys() has duplicates or differs from the keys of the entries resolved from it", {"keys": keys}, True)
     for e in entries:
         if e["id"] != e["key"] or e["cast"] != e["key"]:
             nfail += 1
